@@ -424,6 +424,41 @@ def flow_parameters(f):
         return None
 
 
+def check_narrow_transform(chk, tmp):
+    """a composite transform whose declared precision is NARROWER than the data its affine stage was fitted on (float32 / torch's default
+    against float64 data a thousand widths from the origin): the reloaded object computes what the saved one computed - its fitted state is
+    what the file holds, not a rounded copy"""
+    import h5py
+
+    from aspire import transforms as T
+
+    for nsn, dt in (("numpy", "float32"), ("torch", None), ("torch", "float32"), ("numpy", "float64")):
+        for off in (1000.0, 1.0e6):
+            case = {"level": "transform", "cls": "composite:A(narrow dtype)", "ns": nsn, "dtype": dt, "offset": off}
+            chk.count("transforms:narrow_dtype")
+            chk.case(None, json.dumps(case))
+            try:
+                xp = ns.get_xp(nsn)
+                t = T.CompositeTransform(parameters=["a", "b"], prior_bounds=None, bounded_to_unbounded=False, affine_transform=True, xp=xp, dtype=dt)
+                data = np.random.default_rng(2).normal(off, 0.01, (50, 2))
+                t.fit(xp.asarray(data))
+                p = os.path.join(tmp, f"narrow_{nsn}_{dt}_{int(off)}.h5")
+                with h5py.File(p, "w") as f:
+                    t.save(f, "data_transform")
+                with h5py.File(p, "r") as f:
+                    t2 = type(t).load(f, "data_transform")
+                os.remove(p)
+                pts = xp.asarray(data[:8])
+                y0, j0 = t.forward(pts)
+                y1, j1 = t2.forward(pts)
+                a0, a1 = ns.to_np(y0).astype(float), ns.to_np(y1).astype(float)
+                if a0.shape != a1.shape or not np.allclose(a0, a1, rtol=1e-12, atol=1e-9 * (1 + np.abs(a0))) or not np.allclose(ns.to_np(j0), ns.to_np(j1), rtol=1e-9, atol=1e-9):
+                    chk.fail("a saved transform reproduces the same map", case, f"max |dy| = {np.nanmax(np.abs(a0 - a1)):.3g} (values of order {np.nanmax(np.abs(a0)):.3g})",
+                             {"level": "transform", "clause": "equal", "cls": "composite:A(narrow dtype)"})
+            except Exception as e:   # noqa
+                chk.fail("a saved transform reloads", case, repr(e)[:200], {"level": "transform", "clause": "raise", "cls": "composite:A(narrow dtype)", "exc": type(e).__name__})
+
+
 def check_flows(chk, tmp, quick):
     import h5py
     import torch
@@ -489,6 +524,21 @@ def check_flows(chk, tmp, quick):
                              f"save number {nth} of the same object: max |d log_prob| = {np.max(np.abs(ref - got)):.3g}",
                              {"level": "flow", "clause": "equal", "backend": backend, "save_number": nth})
                     break
+                if nth == 3:
+                    # second generation: the LOADED proposal is saved again (what `resume_from_file` + a checkpoint of the continued run does)
+                    # and that file is loaded
+                    with h5py.File(p, "w") as h:
+                        g.save(h, "flow")
+                    with h5py.File(p, "r") as h:
+                        g2 = F.load(h, "flow")
+                    os.remove(p)
+                    with torch.no_grad():
+                        got2 = ns.to_np(g2.log_prob(data[:10]))
+                    chk.count("flows:second_generation")
+                    if not np.allclose(ref, got2, rtol=1e-5, atol=1e-5):
+                        chk.fail("a saved flow reproduces the same density", dict(case, generation=2),
+                                 f"a loaded proposal saved again and loaded: max |d log_prob| = {np.max(np.abs(ref - got2)):.3g}",
+                                 {"level": "flow", "clause": "equal", "backend": backend, "generation": 2})
         except Exception as e:   # noqa
             chk.fail("a saved flow reloads", case, repr(e)[:200], {"level": "flow", "clause": "raise", "backend": backend, "custom_options": bool(opts), "exc": type(e).__name__})
 
@@ -603,6 +653,7 @@ def run(chk: core.Check):
         check_samples(chk, r, tmp, quick)
         check_histories(chk, tmp)
         check_transforms(chk, r, tmp, quick)
+        check_narrow_transform(chk, tmp)
         check_flows(chk, tmp, quick)
         check_flow_precision(chk, tmp)
         check_config(chk, tmp)
